@@ -729,6 +729,7 @@ func Run(c *lib.Ctx) {
 	}
 	fails = append(fails, mutatedInPlace(c, r.Fork())...)
 	fails = append(fails, rewrittenInPlace(c, r.Fork())...)
+	fails = append(fails, derivedThenRewritten(c, lib.NewRNG(c.Seed*104729+7))...)
 	fails = append(fails, nestedOfDocuments(c, r.Fork())...)
 	ms, err := c.RunModel("c14", sc)
 	if err != nil {
@@ -918,6 +919,128 @@ func rewrittenInPlace(c *lib.Ctx, r *lib.RNG) (fails []lib.OracleFail) {
 			}
 		}
 		c.Hit("oracle-rewritten-in-place")
+	}
+	return fails
+}
+
+// derivedThenRewritten: a value that has been OBSERVED (hashed, compared with a twin) stays what it was when a
+// value DERIVED from it – a slice's Sub / Append / Prepend / Set, a map's Set / Delete / Clear / Mutable /
+// Immutable().Mutable() – is afterwards re-written in place by its own UnmarshalJSON (accepted or refused input,
+// shorter than, as long as and longer than the derived value). After every such write the parent must obey the laws
+// against the twin built before and against a fresh value of what it now reads. (Seeded change c14m: Slice.Sub
+// returns a window of the parent's array, Slice.UnmarshalJSON decodes into the storage the slice already has – the
+// parent changes under its memoised hash.)
+func derivedThenRewritten(c *lib.Ctx, r *lib.RNG) (fails []lib.OracleFail) {
+	jsonsS := []string{`["x"]`, `["x","y"]`, `[9,8,7]`, `[]`, `[1,2,3,4,5,6,7,8]`, `[1,`, `{"a":1}`, `[null]`}
+	jsonsM := []string{`{"a":9}`, `{}`, `{"q":1,"r":2,"s":3}`, `{"a":`, `[1]`, `{"a":{"b":1}}`}
+	for round := 0; round < c.Scale(120, 1200) && len(fails) < 3; round++ {
+		var trace []string
+		var parent, twin types.Value
+		var fresh func() types.Value
+		var rewrite func() error
+		if r.Chance(2, 3) {
+			n := r.Range(1, 6)
+			var elems []types.Value
+			for i := 0; i < n; i++ {
+				elems = append(elems, lib.Pick(r, []types.Value{types.NewInt(i), str(fmt.Sprint("e", i)), types.NewSlice(types.NewInt(i)), types.NewMap(str("k"), types.NewInt(i))}))
+			}
+			p := types.NewSlice(append([]types.Value{}, elems...)...)
+			parent, twin = p, types.NewSlice(append([]types.Value{}, elems...)...)
+			fresh = func() types.Value { return types.NewSlice(append([]types.Value{}, p.Values()...)...) }
+			var d types.Slice
+			switch r.Intn(5) {
+			case 0, 1:
+				a := r.Intn(n)
+				b := r.Range(a, n)
+				d = p.Sub(a, b)
+				trace = append(trace, fmt.Sprintf("d = p.Sub(%d,%d) of a slice of %d", a, b, n))
+			case 2:
+				d = p.Append(str("tail"))
+				trace = append(trace, "d = p.Append(tail)")
+			case 3:
+				d = p.Prepend(str("head"))
+				trace = append(trace, "d = p.Prepend(head)")
+			default:
+				i := r.Intn(n)
+				d = p.Set(i, str("set"))
+				trace = append(trace, fmt.Sprintf("d = p.Set(%d, set)", i))
+			}
+			rewrite = func() error {
+				t := lib.Pick(r, jsonsS)
+				trace = append(trace, "d.UnmarshalJSON "+t)
+				return d.UnmarshalJSON([]byte(t))
+			}
+		} else {
+			pairs := []types.Value{str("a"), types.NewInt(1), str("b"), types.NewSlice(types.NewInt(2)), str("c"), types.NewMap(str("x"), str("y"))}
+			p := types.NewMap(pairs...)
+			parent, twin = p, types.NewMap(pairs...)
+			fresh = func() types.Value {
+				var ps []types.Value
+				for k, v := range p.Range() {
+					ps = append(ps, k, v)
+				}
+				return types.NewMap(ps...)
+			}
+			var d types.Map
+			switch r.Intn(6) {
+			case 0:
+				d = p.Set(str("a"), types.NewInt(7))
+				trace = append(trace, "d = p.Set(a,7)")
+			case 1:
+				d = p.Set(str("n"), types.NewInt(7))
+				trace = append(trace, "d = p.Set(n,7)")
+			case 2:
+				d = p.Delete(str("b"))
+				trace = append(trace, "d = p.Delete(b)")
+			case 3:
+				d = p.Clear()
+				trace = append(trace, "d = p.Clear()")
+			case 4:
+				d = p.Mutable()
+				trace = append(trace, "d = p.Mutable()")
+			default:
+				d = p.Mutable().Set(str("m"), types.NewInt(1)).Immutable().Delete(str("m"))
+				trace = append(trace, "d = p.Mutable().Set(m,1).Immutable().Delete(m)")
+			}
+			rewrite = func() error {
+				t := lib.Pick(r, jsonsM)
+				trace = append(trace, "json.Unmarshal "+t+" into d")
+				return json.Unmarshal([]byte(t), d)
+			}
+		}
+		// observe the parent
+		h0 := types.HashOf(parent)
+		if !types.Equal(parent, twin) || !types.Equal(twin, parent) || types.Compare(parent, twin) != 0 || h0 != types.HashOf(twin) {
+			fails = append(fails, lib.OracleFail{Class: "equal-hash", What: "two values built from the same elements differ", Replay: strings.Join(trace, "\n")})
+			return
+		}
+		for step := 0; step < r.Range(1, 3) && len(fails) < 3; step++ {
+			var err error
+			if p := lib.Safe(func() { err = rewrite() }); p != "" {
+				fails = append(fails, lib.OracleFail{Class: "panic", What: "re-writing a derived value in place panicked: " + p, Replay: strings.Join(trace, "\n")})
+				return
+			}
+			if err != nil {
+				trace[len(trace)-1] += "   -> refused: " + err.Error()
+			}
+			c.Evaluations++
+			f := fresh()
+			bad := func(what string) {
+				c.Hit("oracle-fail:derived-rewritten")
+				fails = append(fails, lib.OracleFail{Class: "stability", What: fmt.Sprintf("an observed value after a value DERIVED from it was re-written in place; it was %s, it now reads %s: %s", lib.EncodeVal(twin), lib.EncodeVal(f), what), Replay: strings.Join(trace, "\n")})
+			}
+			switch {
+			case !types.Equal(parent, twin) || !types.Equal(twin, parent):
+				bad(fmt.Sprintf("Equal with its twin was true both ways, now %v / %v", types.Equal(parent, twin), types.Equal(twin, parent)))
+			case types.Compare(parent, twin) != 0 || types.Compare(twin, parent) != 0:
+				bad(fmt.Sprintf("Compare with its twin was 0, now %d / %d", types.Compare(parent, twin), types.Compare(twin, parent)))
+			case types.HashOf(parent) != h0:
+				bad("its hash changed")
+			case !types.Equal(parent, f) || !types.Equal(f, parent) || types.HashOf(parent) != types.HashOf(f):
+				bad("Equal / Hash against a fresh value of what it reads differ")
+			}
+		}
+		c.Hit("oracle-derived-then-rewritten")
 	}
 	return fails
 }
